@@ -128,6 +128,39 @@ def run(eng, axis=0, anchors=("sym", "sym"), explicit=None, hidden=(), where="vi
     return obs
 
 
+def derived_mr(eng, explicit=("sym", "sym", "sym"), alias="bool1", position="before"):
+    """derived multiple-response item (computed by the backend) with a before/after anchor, under an explicit order of symbolic ids"""
+    import json
+    raw = json.load(open("/repo/tests/fixtures/mr_insertions/cat-x-mr.json"))
+    el = raw["result"]["dimensions"][1]["type"]["elements"]
+    anchor = {"position": position, "alias": alias} if alias not in ("top", "bottom") else alias
+    el[0]["value"]["references"]["anchor"] = anchor
+    aliases = ["A_B", "bool1", "bool2", "bool3"]       # element ids 1..4 ; idx 0 is the derived item
+    dom = [1, 2, 3, 4, 0, 9]
+    exp = [eng.int("exp%d" % k, domain=dom) if x == "sym" else x for k, x in enumerate(explicit)]
+    part = Cube(raw, transforms={"columns_dimension": {"order": {"type": "explicit", "element_ids": exp}}}).partitions[0]
+    got = [int(i) for i in part.column_order()]
+    # specification: base (non-derived) items in first-mention explicit order, the rest in payload order;
+    # the derived item goes before / after its anchor item, to the top / bottom, or to the bottom when the anchor does not exist
+    base_ids = [2, 3, 4]
+    base = []
+    for x in exp:
+        for e in base_ids:
+            if e not in base and bool(x == e):
+                base.append(e)
+                break
+    base += [e for e in base_ids if e not in base]
+    order = [e - 1 for e in base]
+    if alias == "top":
+        want = [0] + order
+    elif alias in aliases[1:]:
+        k = order.index(aliases.index(alias))
+        want = order[:k] + [0] + order[k:] if position == "before" else order[:k + 1] + [0] + order[k + 1:]
+    else:
+        want = order + [0]
+    return [Obs("column order with derived item", got, want, kind="same")]
+
+
 def specs(tier):
     out = []
     M = "props.c07"
@@ -146,6 +179,9 @@ def specs(tier):
     add("columns: two symbolic anchors + explicit symbolic id", dict(axis=1, anchors=["sym", "sym"], explicit=["sym", 1]))
     add("strand: symbolic anchors + explicit", dict(strand=True, anchors=["sym", "sym"], explicit=[1, "sym"]))
     add("strand: transforms insertions with ids, hidden", dict(strand=True, anchors=["sym", 2, "top"], where="transforms", ids=True, hidden=[1]))
+    for alias, pos in (("bool1", "before"), ("bool3", "after"), ("bool2", "before"), ("gone", "after"), ("top", None), ("bottom", None)):
+        out.append(dict(module=M, fn="derived_mr", name="derived MR item anchored %s %s, symbolic explicit order" % (pos, alias),
+                        params=dict(alias=alias, position=pos), max_paths=3000))
     if tier == "thorough":
         add("rows: three symbolic anchors", dict(anchors=["sym", "sym", "sym"]), max_paths=20000)
         add("rows: three symbolic anchors + explicit of three symbolic ids", dict(anchors=["sym", "sym"], explicit=["sym", "sym", "sym"], where="transforms"), max_paths=40000)
